@@ -291,6 +291,18 @@ void StatusPrinter::BuildStarted() {
 void StatusPrinter::BuildFinished() {
   printer_.SetConsoleLocked(false);
   printer_.PrintOnNewLine("");
+
+  // The plan of this build is gone.  The same printer is used again when the
+  // manifest was regenerated and the real build follows: its totals must not
+  // include the edges of the build that just ended.
+  total_edges_ = 0;
+  cpu_time_millis_ = 0;
+  time_predicted_percentage_ = 0.0;
+  eta_predictable_edges_total_ = 0;
+  eta_predictable_cpu_time_total_millis_ = 0;
+  eta_predictable_edges_remaining_ = 0;
+  eta_predictable_cpu_time_remaining_millis_ = 0;
+  eta_unpredictable_edges_remaining_ = 0;
 }
 
 string StatusPrinter::FormatProgressStatus(const char* progress_status_format,
